@@ -63,6 +63,21 @@ pub fn pre_bit(n: usize, index: usize) -> bool {
     index / 8 < n
 }
 
+// ---- postconditions as named predicates (shared by the contract and by its
+// ---- explicit twin harness used for native replay)
+pub fn get_post(x: u128, off: usize, w: u8, r: u64) -> bool {
+    r == field(x, off, w)
+}
+pub fn set_post(x0: u128, x1: u128, off: usize, w: u8, v: u64) -> bool {
+    x1 == splice(x0, off, w, v)
+}
+pub fn get_bit_post(x: u128, index: usize, r: bool) -> bool {
+    r == (((x >> index) & 1) == 1)
+}
+pub fn set_bit_post(x0: u128, x1: u128, index: usize, val: bool) -> bool {
+    x1 == splice(x0, index, 1, val as u64)
+}
+
 macro_rules! unit_contracts {
     ($m:ident, $n:literal) => {
         pub mod $m {
@@ -70,158 +85,22 @@ macro_rules! unit_contracts {
             pub const N: usize = $n;
             pub type U = __BindgenBitfieldUnit<[u8; N]>;
 
-            // ---------------- get ----------------
-            #[kani::requires(pre_dbg(N, off, w) && in_region(off, w))]
-            #[kani::ensures(|r: &u64| *r == field(le(&u.storage), off, w))]
-            pub fn get_c(u: &U, off: usize, w: u8) -> u64 {
-                u.get(off, w)
-            }
-            #[kani::proof_for_contract(get_c)]
-            #[kani::unwind(18)]
-            pub fn get_in() {
-                let u = U::new(kani::any());
-                get_c(&u, kani::any(), kani::any());
-            }
+            getter!(get_c, get_in, get_twin, |u, off, w| u.get(off, w));
+            getter!(raw_get_c, raw_get_in, raw_get_twin, |u, off, w| unsafe { U::raw_get(u as *const U, off, w) });
+            setter!(set_c, set_in, set_twin, |u, off, w, v| u.set(off, w, v));
+            setter!(raw_set_c, raw_set_in, raw_set_twin, |u, off, w, v| unsafe { U::raw_set(u as *mut U, off, w, v) });
+            bit_getter!(get_bit_c, get_bit_in, get_bit_twin, |u, i| u.get_bit(i));
+            bit_getter!(raw_get_bit_c, raw_get_bit_in, raw_get_bit_twin, |u, i| unsafe { U::raw_get_bit(u as *const U, i) });
+            bit_setter!(set_bit_c, set_bit_in, set_bit_twin, |u, i, v| u.set_bit(i, v));
+            bit_setter!(raw_set_bit_c, raw_set_bit_in, raw_set_bit_twin, |u, i, v| unsafe { U::raw_set_bit(u as *mut U, i, v) });
 
-            #[kani::requires(pre_dbg(N, off, w) && in_region(off, w))]
-            #[kani::ensures(|r: &u64| *r == field(le(&u.storage), off, w))]
-            pub fn raw_get_c(u: &U, off: usize, w: u8) -> u64 {
-                unsafe { U::raw_get(u as *const U, off, w) }
-            }
-            #[kani::proof_for_contract(raw_get_c)]
-            #[kani::unwind(18)]
-            pub fn raw_get_in() {
-                let u = U::new(kani::any());
-                raw_get_c(&u, kani::any(), kani::any());
-            }
+            // F1 witness region: (off % 8) + w > 64 (known finding)
+            region_getter!(get_region_gt64, |u, off, w| u.get(off, w));
+            region_getter!(raw_get_region_gt64, |u, off, w| unsafe { U::raw_get(u as *const U, off, w) });
+            region_setter!(set_region_gt64, |u, off, w, v| u.set(off, w, v));
+            region_setter!(raw_set_region_gt64, |u, off, w, v| unsafe { U::raw_set(u as *mut U, off, w, v) });
 
-            // ---------------- set ----------------
-            #[kani::requires(pre_dbg(N, off, w) && in_region(off, w))]
-            #[kani::modifies(u)]
-            #[kani::ensures(|_| le(&u.storage) == splice(old(le(&u.storage)), off, w, v))]
-            pub fn set_c(u: &mut U, off: usize, w: u8, v: u64) {
-                u.set(off, w, v)
-            }
-            #[kani::proof_for_contract(set_c)]
-            #[kani::unwind(18)]
-            pub fn set_in() {
-                let mut u = U::new(kani::any());
-                set_c(&mut u, kani::any(), kani::any(), kani::any());
-            }
-
-            #[kani::requires(pre_dbg(N, off, w) && in_region(off, w))]
-            #[kani::modifies(u)]
-            #[kani::ensures(|_| le(&u.storage) == splice(old(le(&u.storage)), off, w, v))]
-            pub fn raw_set_c(u: &mut U, off: usize, w: u8, v: u64) {
-                unsafe { U::raw_set(u as *mut U, off, w, v) }
-            }
-            #[kani::proof_for_contract(raw_set_c)]
-            #[kani::unwind(18)]
-            pub fn raw_set_in() {
-                let mut u = U::new(kani::any());
-                raw_set_c(&mut u, kani::any(), kani::any(), kani::any());
-            }
-
-            // ---------------- single bits ----------------
-            #[kani::requires(pre_bit(N, index))]
-            #[kani::ensures(|r: &bool| *r == (((le(&u.storage) >> index) & 1) == 1))]
-            pub fn get_bit_c(u: &U, index: usize) -> bool {
-                u.get_bit(index)
-            }
-            #[kani::proof_for_contract(get_bit_c)]
-            #[kani::unwind(18)]
-            pub fn get_bit_in() {
-                let u = U::new(kani::any());
-                get_bit_c(&u, kani::any());
-            }
-
-            #[kani::requires(pre_bit(N, index))]
-            #[kani::ensures(|r: &bool| *r == (((le(&u.storage) >> index) & 1) == 1))]
-            pub fn raw_get_bit_c(u: &U, index: usize) -> bool {
-                unsafe { U::raw_get_bit(u as *const U, index) }
-            }
-            #[kani::proof_for_contract(raw_get_bit_c)]
-            #[kani::unwind(18)]
-            pub fn raw_get_bit_in() {
-                let u = U::new(kani::any());
-                raw_get_bit_c(&u, kani::any());
-            }
-
-            #[kani::requires(pre_bit(N, index))]
-            #[kani::modifies(u)]
-            #[kani::ensures(|_| le(&u.storage) == splice(old(le(&u.storage)), index, 1, val as u64))]
-            pub fn set_bit_c(u: &mut U, index: usize, val: bool) {
-                u.set_bit(index, val)
-            }
-            #[kani::proof_for_contract(set_bit_c)]
-            #[kani::unwind(18)]
-            pub fn set_bit_in() {
-                let mut u = U::new(kani::any());
-                set_bit_c(&mut u, kani::any(), kani::any());
-            }
-
-            #[kani::requires(pre_bit(N, index))]
-            #[kani::modifies(u)]
-            #[kani::ensures(|_| le(&u.storage) == splice(old(le(&u.storage)), index, 1, val as u64))]
-            pub fn raw_set_bit_c(u: &mut U, index: usize, val: bool) {
-                unsafe { U::raw_set_bit(u as *mut U, index, val) }
-            }
-            #[kani::proof_for_contract(raw_set_bit_c)]
-            #[kani::unwind(18)]
-            pub fn raw_set_bit_in() {
-                let mut u = U::new(kani::any());
-                raw_set_bit_c(&mut u, kani::any(), kani::any());
-            }
-
-            // ------- F1 witness region: (off % 8) + w > 64 (known finding) -------
-            // Same property-derived postcondition, complement region. Fails on
-            // the unchanged tree (shift overflow); listed in known_findings.txt.
-            #[kani::proof]
-            #[kani::unwind(18)]
-            pub fn get_region_gt64() {
-                let u = U::new(kani::any());
-                let off: usize = kani::any();
-                let w: u8 = kani::any();
-                kani::assume(pre_dbg(N, off, w) && !in_region(off, w));
-                let r = u.get(off, w);
-                assert!(r == field(le(&u.storage), off, w));
-            }
-            #[kani::proof]
-            #[kani::unwind(18)]
-            pub fn set_region_gt64() {
-                let mut u = U::new(kani::any());
-                let off: usize = kani::any();
-                let w: u8 = kani::any();
-                let v: u64 = kani::any();
-                kani::assume(pre_dbg(N, off, w) && !in_region(off, w));
-                let x0 = le(&u.storage);
-                u.set(off, w, v);
-                assert!(le(&u.storage) == splice(x0, off, w, v));
-            }
-            #[kani::proof]
-            #[kani::unwind(18)]
-            pub fn raw_get_region_gt64() {
-                let u = U::new(kani::any());
-                let off: usize = kani::any();
-                let w: u8 = kani::any();
-                kani::assume(pre_dbg(N, off, w) && !in_region(off, w));
-                let r = unsafe { U::raw_get(&u as *const U, off, w) };
-                assert!(r == field(le(&u.storage), off, w));
-            }
-            #[kani::proof]
-            #[kani::unwind(18)]
-            pub fn raw_set_region_gt64() {
-                let mut u = U::new(kani::any());
-                let off: usize = kani::any();
-                let w: u8 = kani::any();
-                let v: u64 = kani::any();
-                kani::assume(pre_dbg(N, off, w) && !in_region(off, w));
-                let x0 = le(&u.storage);
-                unsafe { U::raw_set(&mut u as *mut U, off, w, v) };
-                assert!(le(&u.storage) == splice(x0, off, w, v));
-            }
-
-            // ------- vacuity canaries: requires satisfiable & post reachable -------
+            // ------- vacuity canary: requires satisfiable & post reachable -------
             #[kani::proof]
             #[kani::unwind(18)]
             pub fn canary_reach() {
